@@ -91,7 +91,18 @@ def build_harness():
     with Lock("harness"):
         h = os.path.join(ROOT, "harness")
         shutil.copyfile(os.path.join(REPO, "go.sum"), os.path.join(h, "go.sum"))
-        rc, out, dt = run(["go", "build", "-tags", "verif", "-o", WWH, "./cmd/wwh"], cwd=h, env=goenv(), timeout=900)
+        cmd = ["go", "build", "-tags", "verif", "-o", WWH]
+        if os.path.realpath(REPO) != "/repo":
+            # VERIF_REPO names a scratch copy of the code under test: harness/go.mod pins `replace ... => /repo`, so build with a
+            # copy of the module file whose replace directive points at the scratch copy (go.sum next to it, as -modfile expects)
+            mod = os.path.join(BUILD, "harness-scratch.mod")
+            with open(os.path.join(h, "go.mod")) as f:
+                text = f.read()
+            with open(mod, "w") as f:
+                f.write(text.replace("=> /repo", "=> " + os.path.realpath(REPO)))
+            shutil.copyfile(os.path.join(REPO, "go.sum"), os.path.join(BUILD, "harness-scratch.sum"))
+            cmd += ["-modfile", mod]
+        rc, out, dt = run(cmd + ["./cmd/wwh"], cwd=h, env=goenv(), timeout=900)
         if rc != 0:
             raise InfraError("harness build failed against /repo:\n" + out[-4000:])
         return dt
